@@ -396,10 +396,13 @@ def main(chk, tier):
         rule_producers(chk, db, cfgname, tab, None)
         rule_offset(chk, db, cfgname)
         rule_transform(chk, db, cfgname)
+        import scratch
+        scratch.rule(chk, db, cfgname, 'C11.4', file_filter=('src/boolean2.cpp', 'src/boolean2_sweep.cpp', 'src/boolean2_offset.cpp', 'src/cross_section.cpp'))
     n = len(configs)
     chk.floor('c11.1.shared_paths_calls', 12 * n)
     chk.floor('c11.2.offset_returns', 3 * n)
     chk.floor('c11.3.transform_bodies', n)
+    chk.floor('c11.4.scratch_buffers', 5 * n)
     return chk.finish(
         'Who-may-construct analysis of CrossSection: every route by which contours reach the stored PathImpl is '
         'resolved to its producing call and must be a regularising or regularity-preserving producer from the '
